@@ -233,6 +233,15 @@ def install_stubs(it):
         if b is None:
             interp.ctx.raise_builtin(TypeError, "cannot convert 'NoneType' object to bytes")
         raise Unsupported("snapshot of %r" % (b,))
+    def crc_of(interp, fv, args, kwargs):
+        from .models import crc_prefix
+        b = args[0]
+        if isinstance(b, SBytes):
+            from .models import crc_fold
+            from .values import byte_to_int
+            return crc_fold(0, [byte_to_int(x) for x in b.items])
+        return crc_prefix(b, b.n)
+    it.stubs[("env.rt", "crc_of")] = crc_of
     it.stubs.update({("env.rt", "emit"): emit, ("env.rt", "choose_int"): choose_int,
                      ("env.rt", "choose_bool"): choose_bool, ("env.rt", "choose_bytes"): choose_bytes,
                      ("env.rt", "assume"): assume, ("env.rt", "snapshot"): snapshot})
